@@ -10,9 +10,9 @@
    for an arbitrary ls means: st is the state at an arbitrary kill point of an arbitrary interleaving.
    Tie to the code: tools/props/C08.py (in-process agent runs: persisted lines and live answers against Status/Check.v;
    the real binary killed at system-call boundaries and time offsets). *)
-From Coq Require Import List.
+From Coq Require Import List Bool.
 Import ListNotations.
-From BD.Status Require Import Model Proofs Check ProofsCheck.
+From BD.Status Require Import Model Proofs Check ProofsCheck ProofsChain.
 
 (* While the run is in progress (Schedule started, not returned) the socket is bound and the reported status is `running`
    with the node table of the current state; more generally whenever the socket answers. *)
@@ -156,3 +156,16 @@ Theorem C08_final_line_is_last : forall n s0 ls st,
   exec (init n s0) ls = Some st -> 5 <= mrank (mp st) <= 11 -> last_line (file st) = Some (snap_of (sc st)).
 Proof. exact final_line_is_last. Qed.
 Print Assumptions C08_final_line_is_last.
+
+(* Since 7f2c2d0 at most one thread is inside writeStatus (statusLock), and therefore the lines of the history file, in file
+   order, are ONE chain of scheduler states - whoever wrote them. *)
+Theorem C08_status_lock_exclusive : forall n s0 ls st,
+  exec (init n s0) ls = Some st ->
+  crit_fs st && crit_cp st = false /\ crit_fs st && crit_mp st = false /\ crit_cp st && crit_mp st = false.
+Proof. exact status_lock_exclusive. Qed.
+Print Assumptions C08_status_lock_exclusive.
+
+Theorem C08_file_is_a_chain : forall n s0 ls st,
+  exec (init n s0) ls = Some st -> chainb (map s_tbl (file st)) = true.
+Proof. exact file_is_a_chain. Qed.
+Print Assumptions C08_file_is_a_chain.
